@@ -284,22 +284,25 @@ def _transform_solution_to_original_domain(result, tf, no_derivs, order):
 
     # Note this is its own function because it is used twice for solve_ode_ivp and bv.
     def interpolate_wrt_original_var(pt):
+        # like the interpolant of a direct solve, accept a scalar or any array_like of points
+        pt = np.asarray(pt, dtype=float)
+        is_scalar = pt.ndim == 0
+        pt = np.atleast_1d(pt)
         transf_pts = tf.transform(pt)
         # Row is which func/deriv and Col is points.
         interpolated = result.sol(transf_pts)
         # If derivatives are not wanted then only return y(x).
         if no_derivs:
-            if interpolated.ndim == 1:
-                return interpolated
-            return interpolated[0, :]
+            values = interpolated[0, :]
+            return values[0] if is_scalar else values
         deriv_funcs = [tf.deriv, tf.deriv2, tf.deriv3]
         new_interpolate = np.zeros(interpolated.shape)
         new_interpolate[0, :] = interpolated[0, :]
         for i in range(interpolated.shape[1]):
             # Calculate the jacobian dr/dx of the original domain.
-            deriv = _derivative_transformation_matrix(deriv_funcs, pt[i], order - 1)
+            deriv = _derivative_transformation_matrix(deriv_funcs, float(pt[i]), order - 1)
             new_interpolate[1:, i] = deriv.dot(interpolated[1:, i])
-        return new_interpolate
+        return new_interpolate[:, 0] if is_scalar else new_interpolate
 
     return interpolate_wrt_original_var
 
